@@ -317,6 +317,62 @@ var c18Filter = hx.Define("c18.filters", func(c *c18FilterCase, s *hx.Sub) *hx.V
 	return nil
 })
 
+// equality between two independently represented copies of one logical value
+
+type c18EqCase struct {
+	V  *hx.Spec `json:"v"`  // canonical
+	X  *hx.Spec `json:"x"`  // one representation of V
+	Y  *hx.Spec `json:"y"`  // another representation of V
+	Z  *hx.Spec `json:"z"`  // a different logical value
+	ZR *hx.Spec `json:"zr"` // a representation of Z
+}
+
+const c18EqSrc = `{{ x == y }}|{{ x != y }}|{{ x == z }}|{% case x %}{% when z %}Z{% when y %}Y{% else %}E{% endcase %}|{{ o contains y }}|{{ o contains z }}|{{ o | uniq | size }}|{% if x == y and y == x %}T{% endif %}`
+
+var c18Eq = hx.Define("c18.equality", func(c *c18EqCase, s *hx.Sub) *hx.Violation {
+	mk := func(x, y, z *hx.Spec) map[string]any {
+		return map[string]any{"x": x.Realise(), "y": y.Realise(), "z": z.Realise(), "o": []any{x.Realise(), y.Realise(), x.Realise()}}
+	}
+	o0 := hx.Render(c18EqSrc, mk(c.V, c.V, c.Z))
+	o1 := hx.Render(c18EqSrc, mk(c.X, c.Y, c.ZR))
+	for _, o := range []hx.Outcome{o0, o1} {
+		if o.Panic != nil {
+			return hx.V("panic@"+o.Panic.Site, "%s: %v", c18EqSrc, o.Panic)
+		}
+	}
+	if !o0.Same(o1) {
+		return hx.V("c18:equality", "with x = %s, y = %s (the same Liquid value %v) and z = %s\n   %s\n   renders %v; with canonical representations %v", trunc(hx.Fingerprint(c.X.Realise()), 200), trunc(hx.Fingerprint(c.Y.Realise()), 200), c.V.Logical(), trunc(hx.Fingerprint(c.ZR.Realise()), 120), c18EqSrc, o1, o0)
+	}
+	if o0.OK() {
+		s.NTKey(hx.Fingerprint(c.X.Realise()) + hx.Fingerprint(c.Y.Realise()) + hx.Fingerprint(c.ZR.Realise()))
+	}
+	if s.WantSample() {
+		s.Sample(map[string]any{"x": trunc(hx.Fingerprint(c.X.Realise()), 200), "y": trunc(hx.Fingerprint(c.Y.Realise()), 200), "output": o1.String()})
+	}
+	return nil
+})
+
+func c18GenValue(t *rapid.T, depth int) *hx.Spec {
+	k := rapid.IntRange(0, 7).Draw(t, "vk")
+	if depth == 0 || k < 4 {
+		switch k % 4 {
+		case 0:
+			return hx.SInt(int64(rapid.IntRange(-2, 5).Draw(t, "vi")))
+		case 1:
+			return hx.SStr(rapid.SampledFrom([]string{"", "a", "b", "1"}).Draw(t, "vs"))
+		case 2:
+			return hx.SFloat(float64(rapid.IntRange(-2, 6).Draw(t, "vf")) / 2)
+		default:
+			return rapid.SampledFrom([]*hx.Spec{hx.SNil(), hx.SBool(true), hx.SBool(false)}).Draw(t, "vc").Clone()
+		}
+	}
+	a := hx.SArr()
+	for i, n := 0, rapid.IntRange(0, 3).Draw(t, "vn"); i < n; i++ {
+		a.E = append(a.E, c18GenValue(t, depth-1))
+	}
+	return a
+}
+
 func TestC18(t *testing.T) {
 	col := hx.NewCollector("C18")
 	defer col.Finish()
@@ -331,6 +387,19 @@ func TestC18(t *testing.T) {
 		c := &c18Case{P: p, R1: rerepBinds(t, p.Binds)}
 		if v := prog.Run(c); v != nil {
 			t.Fatalf("%s", v.Message)
+		}
+	})
+
+	eq := c18Eq.On(col, "rapid: a logical value (scalar or array nested to depth 2) realised twice with independently drawn representations at every node (numeric widths, typed slices, fixed arrays, Drops at any depth) and a second value z; x == y, x != y, x == z, case x / when z / when y, array-of-arrays contains y / z, uniq over [x, y, x]; metamorphic oracle: same result as with canonical representations. Non-trivial: renders; distinct by the three representation fingerprints", false)
+	col.Rapid(eq.Sub, env.PerShard(env.Pick(20000, 1000000)), func(t *rapid.T) {
+		v := c18GenValue(t, 2)
+		if v.K != "arr" && rapid.Bool().Draw(t, "wrap") {
+			v = hx.SArr(v, c18GenValue(t, 1))
+		}
+		z := c18GenValue(t, 2)
+		c := &c18EqCase{V: v, X: rerep(t, v, "elem", false), Y: rerep(t, v, "elem", false), Z: z, ZR: rerep(t, z, "elem", false)}
+		if res := eq.Run(c); res != nil {
+			t.Fatalf("%s", res.Message)
 		}
 	})
 
